@@ -17,17 +17,19 @@ HT == HTLCs(HashSet, 2)
 \* canonical order of HTLCs inside a content: by direction, hash, amount
 Rank(x) == (IF x.d = "o" THEN 0 ELSE 100) + (IF x.h = "h1" THEN 0 ELSE 10) + x.a
 Contents == {<<>>} \cup {<<x>> : x \in HT} \cup {<<p[1], p[2]>> : p \in {q \in HT \X HT : Rank(q[1]) <= Rank(q[2])}}
-Reqs == UNION {ChanReqs(c, Contents, TRUE) : c \in ChanSet}
-        \cup {[op |-> "AddInvoice", h |-> h, a |-> a] : h \in HashSet, a \in 1..3}
+NodeReqs == {[op |-> "AddInvoice", h |-> h, a |-> a] : h \in HashSet, a \in 1..3}
         \cup {[op |-> "AddKeysend", h |-> h, a |-> a] : h \in HashSet, a \in 1..2}
         \cup {[op |-> "Fulfill", h |-> h] : h \in HashSet}
         \cup {[op |-> "Tick"], [op |-> "Heartbeat"], [op |-> "Restart"]}
+\* per step: the node-level requests and, per channel, the requests for three random contents
+\* (evaluating Step for all 45 contents x channels x 2 at every step makes simulation 8x slower)
+Cand == NodeReqs \cup UNION {ChanReqs(c, {<<>>, RandomElement(Contents), RandomElement(Contents)}, TRUE) : c \in ChanSet}
 
 Init == s = InitState(ChanSet, HashSet) /\ hist = <<>> /\ w = 0
 Next == /\ Len(hist) < Depth
-        /\ \E r \in Reqs :
+        /\ \E r \in Cand :
               LET o == Step(s, r, K)
-                  wt == IF o.s # s THEN (IF r.op \in {"SignCp", "ValidateHolder"} THEN 4 ELSE 40)
+                  wt == IF o.s # s THEN (IF r.op \in {"AddInvoice", "AddKeysend", "Tick"} THEN 3 ELSE 8)
                         ELSE IF o.resp.ok THEN 1 ELSE 2 IN
               \E k \in 1..wt :
                 /\ s' = o.s
